@@ -578,7 +578,7 @@ func (cs *Contracts) parseContractFile(path, pkgPath string) error {
 			}
 			h.Label, h.E = c.Label, c.E
 			cur.Hooks = append(cur.Hooks, h)
-		case "nopanic", "models-panics", "trusted", "deterministic", "arith-checked", "readonly-receiver", "order-insensitive", "checks-writeguards":
+		case "nopanic", "models-panics", "trusted", "deterministic", "arith-checked", "readonly-receiver", "order-insensitive", "checks-writeguards", "writes-only-fresh-slices":
 			cur.Flags[word] = true
 		default:
 			problem(ln, "unknown clause %q", word)
